@@ -118,6 +118,13 @@ func cmdCheck(args []string) int {
 		return 2
 	}
 	loadSecs := time.Since(start).Seconds()
+	known := loadKnown()
+	e.known = map[string]*knownFinding{}
+	for i := range known {
+		if known[i].Property == prop {
+			e.known[known[i].Obligation] = &known[i]
+		}
+	}
 
 	var todo []*FuncContract
 	var assumedAll []string
@@ -204,7 +211,10 @@ func cmdCheck(args []string) int {
 	solveAll(obls, secs)
 	solveSecs := time.Since(solveStart).Seconds()
 
-	known := loadKnown()
+	byName := map[string]*Obligation{}
+	for _, o := range obls {
+		byName[o.Name] = o
+	}
 	discharged, total := 0, 0
 	violations := 0
 	var samples []interface{}
@@ -235,12 +245,21 @@ func cmdCheck(args []string) int {
 			continue
 		}
 		// not discharged
-		kf := matchKnown(known, prop, o.Name)
-		if kf != nil {
-			fmt.Printf("KNOWN-FINDING: property=%s %s [%s]\n", prop, kf.Description, o.Name)
-			knownHit = append(knownHit, o.Name)
+		if o.Kind == "narrowed" {
+			// reported together with the obligation it narrows
 			total--
 			continue
+		}
+		kf := matchKnown(known, prop, o.Name)
+		if kf != nil {
+			nar := byName[o.Name+"|outside-known-finding"]
+			if kf.Witness == "" || (nar != nil && nar.Status == "unsat") {
+				fmt.Printf("KNOWN-FINDING: property=%s %s [%s]\n", prop, kf.Description, o.Name)
+				knownHit = append(knownHit, o.Name)
+				total--
+				continue
+			}
+			fmt.Printf("obligation %s fails outside the region of the listed known finding (%s)\n", o.Name, kf.Witness)
 		}
 		violations++
 		path := writeReplay(e, prop, o)
